@@ -226,6 +226,10 @@ func randomConfig(r *gen.RNG, c *Case, total int) {
 	if r.Chance(1, 4) {
 		c.LetterSp = gen.Pick(r, []int{-128, 64, 128, 256})
 	}
+	if r.Chance(1, 6) {
+		// runs that were wrapped before (laid out again for another width)
+		c.StaleVisual = 1 + r.Intn(7)
+	}
 }
 
 // RandomCase draws one synthetic case.
